@@ -51,7 +51,8 @@ def confirm(wt, pid, name):
     rc, cur = sh("git diff -- src", wt)
     # 1. with the change
     t0 = time.time()
-    rc, out = sh("cargo test --offline --no-fail-fast 2>&1", wt)
+    REL = " --release" if os.environ.get("SEED_RELEASE") else ""     # RELEASE-flavoured seeds break only without debug assertions
+    rc, out = sh("cargo test --offline --no-fail-fast%s 2>&1" % REL, wt)
     summ = test_summary(out)
     existing = [s for s in summ if "demo_" not in s[0]]
     demo = [s for s in summ if "demo_" in s[0] and "controls" not in s[0]]
@@ -61,7 +62,7 @@ def confirm(wt, pid, name):
     # a demo binary that aborts prints no summary line
     if not demo:
         demo_fails = "demo_" in out and ("error: test failed" in out or "SIGABRT" in out or "SIGSEGV" in out)
-    meta["ran"].append({"cmd": "cargo test --offline --no-fail-fast   (change applied)", "existing_pass": existing_ok,
+    meta["ran"].append({"cmd": "cargo test --offline --no-fail-fast%s   (change applied)" % REL, "existing_pass": existing_ok,
                         "existing_tests_passed": n_existing, "demo_fails": demo_fails,
                         "summary": summ, "wall_s": round(time.time() - t0, 1)})
     # 2. without the change
@@ -72,7 +73,7 @@ def confirm(wt, pid, name):
         outs = []
         for d in demos:
             tn = os.path.basename(d)[:-3]
-            rc2, out2 = sh("cargo test --offline --test %s 2>&1" % tn, wt)
+            rc2, out2 = sh("cargo test --offline%s --test %s 2>&1" % (REL, tn), wt)
             s2 = test_summary(out2)
             ok = rc2 == 0 and s2 and all(x[1] == "ok" for x in s2)
             ok_all = ok_all and ok
